@@ -34,6 +34,11 @@ def applySpec (spec : String) (cur : Option Nat) (avail : Nat) : Option (Option 
       let o ← off.toNat?
       let l ← len.toNat?
       pure (some o, l)
+  | ["b", off, len] => do
+      -- inside the harness's 4 GiB read-only mapping; its offsets are reported as 2^40 + off
+      let o ← off.toNat?
+      let l ← len.toNat?
+      pure (some (2 ^ 40 + o), l)
   | ["n", len] => do
       let l ← len.toNat?
       pure (none, l)
